@@ -141,6 +141,17 @@ CHECKS = {
             "header names are tried is sampled.",
             "SimFS is the disk; producers are injected finished commands; programs are built through the API.",
             "DESIGN.md 5/C17"),
+    "C09": ("immutsim", "exploration",
+            "deterministic simulation of consumer histories over shared memoised state: seeded sequences of consumer "
+            "executions (all built-in commands, single-input forms, repeated producers, consumers of consumers, "
+            "writers on a simulated disk) with a snapshot invariant evaluated after every execute exit, normal or "
+            "raising",
+            "Seeded exploration of histories of 5-40 consumer executions over 1-4 injected producer results (float/int, "
+            "mask kinds, rank 1-3, fuzzy or not). After every execute exit each result produced so far must still have "
+            "the shape, element type, missing cells and non-missing values it had when it was produced.",
+            "The payload beneath missing cells is excluded (the clamp rewrites it). Producers are injected finished "
+            "commands; SimFS is the disk.",
+            "DESIGN.md 5/C09"),
     "C18": ("iosim_netcdf", "exploration",
             "deterministic (seeded, replayable) write -> read histories through the real netCDF4/HDF5 library on real "
             "scratch files over the configuration matrix of optional read parameters; in-memory dataset model. No "
